@@ -49,6 +49,28 @@ def exc_origin(e: BaseException):
     return last if last is not None else o
 
 
+_VERIF_ROOT = os.path.dirname(os.path.dirname(os.path.abspath(__file__)))
+
+
+def raise_if_harness_fault(e: BaseException):
+    """An exception whose innermost frame is the simulator's own code is a harness problem, never a verdict about
+    the library (injected faults and the simulator's budget / deadlock signals excepted)."""
+    if isinstance(e, (faults_mod.InjectedObjectiveFault, kernel.SimStepLimit, kernel.SimDeadlock)):
+        return
+    if "injected failure of objective" in str(e) or type(e).__name__ == "BrokenProcessPool":
+        return
+    tb, last = e.__traceback__, None
+    while tb is not None:
+        last = tb.tb_frame.f_code.co_filename
+        tb = tb.tb_next
+    if last and last.startswith(_VERIF_ROOT + os.sep) and "/workload/tasks.py" not in last:
+        # documented ValueErrors of the pool model (max_workers <= 0, submit after shutdown) mirror CPython's
+        if isinstance(e, (ValueError, RuntimeError)) and "/sim/pools.py" in last and \
+                ("max_workers" in str(e) or "after shutdown" in str(e)):
+            return
+        raise RuntimeError(f"harness fault inside the simulator: {type(e).__name__}: {e} at {last}") from e
+
+
 def dump_agent(a):
     d = a.model_dump()
     return copy.deepcopy(d)
@@ -253,6 +275,7 @@ def run_scenario(desc, keep_events=0, event_kinds=None, pre_ops=None) -> RunReco
             except kernel.SimAbort:
                 raise
             except BaseException as e:
+                raise_if_harness_fault(e)
                 rec.exc = e
                 rec.exc_type = type(e).__name__
                 rec.exc_msg = str(e)[:300]
